@@ -4,5 +4,6 @@ CONSTANTS
   NegMag = {1}
   Gaps = {1}
   MaxLen = 5
+  MaxResets = 0
 INVARIANT Emit
 CHECK_DEADLOCK FALSE
